@@ -38,6 +38,9 @@ type C06Op struct {
 type C06Msg struct {
 	Token string  `json:"token"`
 	Ops   []C06Op `json:"ops"`
+	// Prelude: calls made for an earlier mail on the same Msg value, followed by Msg.Reset();
+	// nothing of them may survive into this message.
+	Prelude []C06Op `json:"prelude,omitempty"`
 }
 
 type C06Scenario struct {
@@ -54,7 +57,8 @@ func (*c06) ID() string                      { return "C06" }
 func (*c06) Level() string                   { return "exploration" }
 func (*c06) Decode(raw []byte) (any, error) { return decodeInto[C06Scenario](raw) }
 
-var c06Names = []string{"", "", "Plain Name", "Last, First", "Ünï Cödé", "名前 太郎", "Dr. Who (tardis)", "semi;colon", "at@sign", "a very long display name that will have to be folded somewhere along the line by the header writer"}
+var c06Names = []string{"", "", "Plain Name", "Last, First", "Ünï Cödé", "名前 太郎", "Dr. Who (tardis)", "semi;colon", "at@sign", "a very long display name that will have to be folded somewhere along the line by the header writer",
+	"Doe,  John", "Dept. A   / Room 2", "tab\tin the name", "two  blanks in a display name that is long enough to be folded by the header writer  somewhere"}
 
 func c06Addr(r *sim.Rand, tok, field string, n int) AddrSpec {
 	local := fmt.Sprintf("%s-%s-%d", field, tok, n)
@@ -87,6 +91,19 @@ func (p *c06) Gen(seed uint64, i int, tier string) (any, bool) {
 	for m := 0; m < nm; m++ {
 		tok := fmt.Sprintf("k%dm%d", i%1000, m)
 		msg := C06Msg{Token: tok}
+		if r.Chance(1, 4) {
+			// the Msg value has been used for another mail before
+			for k, f := range []string{"envfrom", "from", "to", "cc", "bcc", "replyto"} {
+				if r.Chance(2, 3) {
+					kind := "set"
+					if k >= 2 && k <= 4 {
+						kind = sim.Pick(r, []string{"set", "add"})
+					}
+					cnt++
+					msg.Prelude = append(msg.Prelude, C06Op{Kind: kind, Field: f, Addrs: []AddrSpec{c06Addr(r, tok, "old"+f, cnt)}})
+				}
+			}
+		}
 		// a sender first, so that most messages are sendable
 		if r.Chance(9, 10) {
 			cnt++
@@ -184,6 +201,29 @@ func (p *c06) Exec(t *testing.T, scAny any) Outcome {
 		return func() {
 			for mi, ms := range sc.Msgs {
 				m := mail.NewMsg()
+				if len(ms.Prelude) > 0 {
+					for _, op := range ms.Prelude {
+						in := addrText(op.Addrs[0])
+						switch op.Field {
+						case "envfrom":
+							_ = m.EnvelopeFrom(in)
+						case "from":
+							_ = m.From(in)
+						case "to":
+							_ = m.AddTo(in)
+						case "cc":
+							_ = m.AddCc(in)
+						case "bcc":
+							_ = m.AddBcc(in)
+						default:
+							_ = m.ReplyTo(in)
+						}
+					}
+					m.Subject("subject of the earlier mail")
+					m.SetBodyString(mail.TypeTextPlain, "body of the earlier mail\r\n")
+					_, _ = Render(m)
+					m.Reset()
+				}
 				m.Subject("subject " + ms.Token)
 				m.SetBodyString(mail.TypeTextPlain, "body of "+ms.Token+"\r\n")
 				m.SetDateWithValue(FixedDate)
@@ -497,6 +537,16 @@ func (p *c06) judgeRender(out *Outcome, tok string, md *c06Model, data []byte, w
 			out.violate("C06:bcc-visible", "message %s (%s): the Bcc address %q occurs in the rendered message", tok, where, b.mailbox())
 		}
 	}
+	// Unfold the header section the way RFC 5322 2.2.3 says (remove each CRLF that is followed
+	// by white space, keep the white space) before net/mail sees it: net/textproto joins
+	// continuation lines with exactly one blank, which would change a display name that was
+	// folded at a run of blanks — a property of that reader, not of what was written.
+	if i := bytes.Index(data, []byte("\r\n\r\n")); i >= 0 {
+		h := append([]byte(nil), data[:i+2]...)
+		h = bytes.ReplaceAll(h, []byte("\r\n "), []byte(" "))
+		h = bytes.ReplaceAll(h, []byte("\r\n\t"), []byte("\t"))
+		data = append(h, data[i+2:]...)
+	}
 	pm, err := netmail.ReadMessage(bytes.NewReader(data))
 	if err != nil {
 		out.violate("C06:render-unparsable", "message %s (%s): net/mail cannot read the rendering: %v", tok, where, err)
@@ -583,6 +633,16 @@ func (p *c06) Shrink(scAny any) []any {
 			out = append(out, &c)
 		}
 	}
+	for mi := range sc.Msgs {
+		for oi := range sc.Msgs[mi].Prelude {
+			c := *sc
+			c.Msgs = append([]C06Msg(nil), sc.Msgs...)
+			m := c.Msgs[mi]
+			m.Prelude = append(append([]C06Op(nil), m.Prelude[:oi]...), m.Prelude[oi+1:]...)
+			c.Msgs[mi] = m
+			out = append(out, &c)
+		}
+	}
 	if len(sc.Server.Rules) > 0 {
 		c := *sc
 		c.Server.Rules = nil
@@ -593,7 +653,7 @@ func (p *c06) Shrink(scAny any) []any {
 
 func (p *c06) Info() PropInfo {
 	return PropInfo{
-		Rule: "seeded search: 1..2 messages, each built by a sender call followed by 2..8 address-setting calls drawn from {To/Cc/Bcc: set (0..3 addresses), AddX, AddXFormat, XIgnoreInvalid, XFromString; From/EnvelopeFrom/ReplyTo: plain and Format variants, FromIgnoreInvalid} with generated addresses (unique per field, some local parts needing quoting or UTF-8, display names plain / with comma / non-ASCII / with parentheses / very long, duplicates within a list, invalid inputs mixed in), applied to the Msg and to the reference model; then a direct render and DialAndSend under no fault or a refused RCPT (450/550) optionally plus a refused MAIL; non-trivial = at least one message is sendable; distinct = distinct (call sequence, reply script, seed)",
+		Rule: "seeded search: 1..2 messages, each built by a sender call followed by 2..8 address-setting calls drawn from {To/Cc/Bcc: set (0..3 addresses), AddX, AddXFormat, XIgnoreInvalid, XFromString; From/EnvelopeFrom/ReplyTo: plain and Format variants, FromIgnoreInvalid} with generated addresses (unique per field, some local parts needing quoting or UTF-8, display names plain / with comma / non-ASCII / with parentheses / very long / with runs of blanks / with a TAB, duplicates within a list, invalid inputs mixed in), applied to the Msg and to the reference model; a quarter of the messages are built on a Msg value that carried another mail before and was Reset(); then a direct render and DialAndSend under no fault or a refused RCPT (450/550) optionally plus a refused MAIL; non-trivial = at least one message is sendable; distinct = distinct (call sequence, reply script, seed)",
 		Assumptions: []string{"for the IgnoreInvalid setters the survivors are read back from the getters; the model demands only that they are a subsequence of the inputs and that no pure-ASCII valid input is dropped",
 			"XFromString is exercised with bare addr-specs only (its comma-separated format cannot carry display names with commas)",
 			"Bcc addresses are generated unique to the Bcc list, so any occurrence of one in the bytes is a leak"},
